@@ -79,23 +79,23 @@ fn builtin_len(args: Vec<Rc<Object>>) -> Result<Rc<Object>, String> {
 }
 
 fn builtin_puts(args: Vec<Rc<Object>>) -> Result<Rc<Object>, String> {
-    if args.is_empty() {
-        println!();
-        return Ok(Rc::new(Object::Null));
-    }
-
+    // A failed write (closed pipe, full device) is an error object, not a panic
+    let mut text = String::new();
     for obj in args {
         match obj.as_ref() {
             Object::Str(t) => {
                 // Avoid quotes around string
-                print!("{}", t);
+                text.push_str(t);
             }
             o => {
-                print!("{}", o);
+                text.push_str(&o.to_string());
             }
         }
     }
-    println!();
+    text.push('\n');
+    if let Err(e) = io::stdout().write_all(text.as_bytes()) {
+        return Ok(Rc::new(Object::Err(ErrorObj::IO(e))));
+    }
     // puts returns Null
     Ok(Rc::new(Object::Null))
 }
@@ -480,62 +480,60 @@ fn builtin_print(args: Vec<Rc<Object>>) -> Result<Rc<Object>, String> {
     if args.is_empty() {
         return Err(String::from("takes atleast one argument. got none"));
     }
-    let mut len = 0;
     let collector = format_buf(args)?;
-    // Print the collected formatted output
-    for s in &collector.0 {
-        print!("{}", s);
-        len += s.len() as i64;
+    // Write the collected formatted output; a failed write (closed pipe,
+    // full device) is an error object, not a panic
+    let text: String = collector.0.iter().map(|s| s.as_str()).collect();
+    if let Err(e) = io::stdout().write_all(text.as_bytes()) {
+        return Ok(Rc::new(Object::Err(ErrorObj::IO(e))));
     }
-    Ok(Rc::new(Object::Integer(len)))
+    Ok(Rc::new(Object::Integer(text.len() as i64)))
 }
 
 fn builtin_println(args: Vec<Rc<Object>>) -> Result<Rc<Object>, String> {
     if args.is_empty() {
         return Err(String::from("takes atleast one argument. got none"));
     }
-    let mut len = 0;
     let collector = format_buf(args)?;
-    // Print the collected formatted output
-    for s in &collector.0 {
-        print!("{}", s);
-        len += s.len() as i64;
-    }
+    // Write the collected formatted output; a failed write (closed pipe,
+    // full device) is an error object, not a panic
+    let mut text: String = collector.0.iter().map(|s| s.as_str()).collect();
     // Newline at the end
-    println!();
-    len += 1;
-    Ok(Rc::new(Object::Integer(len)))
+    text.push('\n');
+    if let Err(e) = io::stdout().write_all(text.as_bytes()) {
+        return Ok(Rc::new(Object::Err(ErrorObj::IO(e))));
+    }
+    Ok(Rc::new(Object::Integer(text.len() as i64)))
 }
 
 fn builtin_eprint(args: Vec<Rc<Object>>) -> Result<Rc<Object>, String> {
     if args.is_empty() {
         return Err(String::from("takes atleast one argument. got none"));
     }
-    let mut len = 0;
     let collector = format_buf(args)?;
-    // Print the collected formatted output
-    for s in &collector.0 {
-        eprint!("{}", s);
-        len += s.len() as i64;
+    // Write the collected formatted output; a failed write (closed pipe,
+    // full device) is an error object, not a panic
+    let text: String = collector.0.iter().map(|s| s.as_str()).collect();
+    if let Err(e) = io::stderr().write_all(text.as_bytes()) {
+        return Ok(Rc::new(Object::Err(ErrorObj::IO(e))));
     }
-    Ok(Rc::new(Object::Integer(len)))
+    Ok(Rc::new(Object::Integer(text.len() as i64)))
 }
 
 fn builtin_eprintln(args: Vec<Rc<Object>>) -> Result<Rc<Object>, String> {
     if args.is_empty() {
         return Err(String::from("takes atleast one argument. got none"));
     }
-    let mut len = 0;
     let collector = format_buf(args)?;
-    // Print the collected formatted output
-    for s in &collector.0 {
-        eprint!("{}", s);
-        len += s.len() as i64;
-    }
+    // Write the collected formatted output; a failed write (closed pipe,
+    // full device) is an error object, not a panic
+    let mut text: String = collector.0.iter().map(|s| s.as_str()).collect();
     // Newline at the end
-    eprintln!();
-    len += 1;
-    Ok(Rc::new(Object::Integer(len)))
+    text.push('\n');
+    if let Err(e) = io::stderr().write_all(text.as_bytes()) {
+        return Ok(Rc::new(Object::Err(ErrorObj::IO(e))));
+    }
+    Ok(Rc::new(Object::Integer(text.len() as i64)))
 }
 
 fn builtin_round(args: Vec<Rc<Object>>) -> Result<Rc<Object>, String> {
@@ -1084,8 +1082,12 @@ fn builtin_input(args: Vec<Rc<Object>>) -> Result<Rc<Object>, String> {
     // display the prompt only if args has atleast one element
     if args.len() == 1 {
         if let Object::Str(s) = args[0].as_ref() {
-            print!("{}", s);
-            io::stdout().flush().expect("Failed to flush stdout");
+            if let Err(e) = io::stdout()
+                .write_all(s.as_bytes())
+                .and_then(|_| io::stdout().flush())
+            {
+                return Ok(Rc::new(Object::Err(ErrorObj::IO(e))));
+            }
         } else {
             return Err(String::from("argument should be a string"));
         }
